@@ -3,8 +3,10 @@ package c16
 import (
 	"fmt"
 	"sort"
+	"strings"
 
 	"github.com/wollac/iota-crypto-demo/pkg/bech32"
+	"github.com/wollac/iota-crypto-demo/pkg/bech32/address"
 
 	"verif/harness/fw"
 	"verif/harness/oracle/bech32m"
@@ -63,6 +65,25 @@ func judgeAcceptSet(seed uint64, mode byte, chunk uint32, o *fw.Obs) {
 		o.Count("acceptance-set scan: 2^22 chunks")
 	}
 	for _, d := range acc {
+		// first on the scanned string itself: a pattern of at most four substitutions inside its data part
+		// with the same syndrome as the accepted checksum change
+		if sep := strings.LastIndexByte(base, '1'); sep >= 0 {
+			if e, ok := patternWithSyndromeWithin(d, len(base)-sep-1, o); ok {
+				b := []byte(base)
+				for k := 0; k < e.n; k++ {
+					i := len(b) - 1 - e.j[k]
+					b[i] = bech32m.Charset[byte(bech32m.SymbolOf(b[i]))^e.v[k]]
+				}
+				var yes bool
+				if !o.Try("bech32.Decode", func() { yes = accepted(b) }) {
+					return
+				}
+				if yes && string(b) != base {
+					o.Fail("undetected", "Decode accepts %+q, which differs from the valid string %+q in %d characters of the data part (error pattern %v, found through the accepted checksum value %s)", b, base, e.n, e, bechscan.Describe(base, d))
+					return
+				}
+			}
+		}
 		e, ok := patternWithSyndrome(d, o)
 		if !ok {
 			o.Count("accepted non-1 checksum value without a weight<=4 pattern (left to C04)")
@@ -179,6 +200,9 @@ func poison(seed uint64, kind byte) string {
 }
 
 func judgeHistory(seed uint64, kind byte, shard, nshards uint32, thorough bool, o *fw.Obs) {
+	// kinds 8..15: the rejected call goes through address.ParseBech32, the API of this repository that sits
+	// on top of Decode, instead of Decode itself
+	viaAddress := kind >= 8
 	o.Nontrivial()
 	r := fw.SubRng(int64(seed), "c16-history-base")
 	data := make([]byte, 50)
@@ -196,7 +220,11 @@ func judgeHistory(seed uint64, kind byte, shard, nshards uint32, thorough bool, 
 	var perr error
 	var okBase bool
 	probe := func(s string) bool {
-		_, _, perr = bech32.Decode(bad)
+		if viaAddress {
+			_, _, perr = address.ParseBech32(bad)
+		} else {
+			_, _, perr = bech32.Decode(bad)
+		}
 		_, _, err := bech32.Decode(s)
 		return err == nil
 	}
@@ -256,7 +284,7 @@ func judgeHistory(seed uint64, kind byte, shard, nshards uint32, thorough bool, 
 			return
 		}
 		if yes && string(b) != base {
-			o.Fail("undetected", "right after the rejected call Decode(%+q), Decode accepts %+q, which differs from the valid string %+q in %d characters of the data part (error pattern %v)", bad, b, base, e.n, e)
+			o.Fail("undetected", "right after the rejected call %s(%+q), Decode accepts %+q, which differs from the valid string %+q in %d characters of the data part (error pattern %v)", map[bool]string{false: "bech32.Decode", true: "address.ParseBech32"}[viaAddress], bad, b, base, e.n, e)
 			return
 		}
 		o.Count("history: accepted checksum value whose weight<=4 pattern was not confirmed")
